@@ -440,6 +440,41 @@ func c14EvalBuilder(w *mc.W, cas c14Bld) {
 			b = builder.WithKeyPNM(k1, 33, 2, 200)
 			mKey = k1
 			latched = true
+		case "WithKeyPM":
+			b = builder.WithKeyPM(k1, 8, 256)
+			mKey, mP, mM = k1, 8, 256
+		case "WithKeyHashPM":
+			b = builder.WithKeyHashPM(&h, 20, 1<<20)
+			copy(mKey[:], h[:16])
+			mP, mM = 20, 1<<20
+		case "WithKeyHashPNM":
+			b = builder.WithKeyHashPNM(&h, 19, 3, 784931)
+			copy(mKey[:], h[:16])
+			mP, mM = 19, 784931
+			if dk := builder.DeriveKey(&h); dk != mKey {
+				fail("derivekey-is-not-the-first-16-bytes-of-the-hash", fmt.Sprintf("%x", dk))
+			}
+		case "WithRandomKey", "WithRandomKeyPM", "WithRandomKeyPNM":
+			// the key is the library's choice: it is read back once and must then stay what it is
+			switch cas.Ctor {
+			case "WithRandomKey":
+				b = builder.WithRandomKey()
+				mP, mM = 19, 784931
+			case "WithRandomKeyPM":
+				b = builder.WithRandomKeyPM(5, 77)
+				mP, mM = 5, 77
+			default:
+				b = builder.WithRandomKeyPNM(32, 4, 1<<32-1)
+				mP, mM = 32, 1<<32-1
+			}
+			k, err := b.Key()
+			if err != nil {
+				fail("random-key-constructor-fails", err.Error())
+				return
+			}
+			mKey = k
+		default:
+			panic("c14: unknown constructor " + cas.Ctor)
 		}
 		for step, op := range cas.Ops {
 			w.Trans()
@@ -720,5 +755,27 @@ func runC14(c *mc.Ctx) {
 		w.State()
 		c14EvalBuilder(w, c14Bld{Ctor: ct, Ops: ops})
 	})
+	// the remaining constructors (explicit P and M, key from a hash, a random key read back once):
+	// every chain of depth <= 2 (3)
+	{
+		more := []string{"WithKeyPM", "WithKeyHashPM", "WithKeyHashPNM", "WithRandomKey", "WithRandomKeyPM", "WithRandomKeyPNM"}
+		var chains [][]string
+		var rec func(ops []string)
+		rec = func(ops []string) {
+			chains = append(chains, append([]string{}, ops...))
+			if len(ops) == mc.Pick(c, 2, 3) {
+				return
+			}
+			for _, m := range c14Menu {
+				rec(append(ops, m))
+			}
+		}
+		rec(nil)
+		c.Space("builder chains of depth <= 2 (3) x the 6 remaining constructors", int64(len(chains)*len(more)))
+		c.ParFor(int64(len(chains)*len(more)), func(w *mc.W, i int64) {
+			w.State()
+			c14EvalBuilder(w, c14Bld{Ctor: more[i%int64(len(more))], Ops: chains[i/int64(len(more))]})
+		})
+	}
 	c.Sample("builder", c14Bld{Ctor: "WithKey", Ops: []string{"AddEntry:a", "SetP:33", "Build"}})
 }
